@@ -110,6 +110,13 @@ def run(tier, seed):
             r = complex(r)
         if not abs(v - r) <= 1e-14 * abs(r):
             bad.append(dict(z=[z.real, z.imag], impl=[v.real, v.imag], exact=[r.real, r.imag], clause="complex accuracy"))
+    # ---- multi-dimensional arguments in every memory layout (C order, Fortran order, transposed and strided views)
+    base2 = np.array([[1e-5, 0.5, 3.0], [2.0, 1e-4, 40.0]])
+    for label, arr2 in [("C", base2), ("F", np.asfortranarray(base2)), ("transposed", base2.T), ("strided", np.tile(base2, (1, 2))[:, ::2]), ("3-d permuted", np.transpose(np.stack([base2, 2 * base2]), (2, 0, 1)))]:
+        got2 = np.asarray(poisson_prob_scale(arr2)); want2 = np.vectorize(ref_real)(np.asarray(arr2))
+        res.count("layout/" + label)
+        if got2.shape != np.asarray(arr2).shape or not np.allclose(got2, want2, rtol=1e-14, atol=0):
+            bad.append(dict(x=np.asarray(arr2).tolist(), impl=got2.tolist(), clause="accuracy for arrays of every memory layout (%s: got %r)" % (label, got2.tolist())))
     # ---- integer- and bool-typed real arguments (python int, every numpy integer width, integer arrays)
     nint = 0
     for ty in (int, np.int8, np.int16, np.int32, np.int64, np.uint8, np.uint16, np.uint32, np.uint64, bool):
